@@ -54,7 +54,7 @@ type totality struct {
 	extraPanic func(fb funcBody, list []ast.Stmt, i int, key string) bool
 	// switchReach lets a property show that the types a sealed switch misses
 	// cannot reach it (dynamic-type inference on the operand).
-	switchReach func(fb funcBody, ts *ast.TypeSwitchStmt, missing []string) (bool, string)
+	switchReach func(fb funcBody, ts *ast.TypeSwitchStmt, missing []string) (int, string)
 	roots       *dataRoots
 }
 
